@@ -293,6 +293,12 @@ pub fn gen_case(idx: u64, large: bool) -> Case {
         }
     }
     if rng.chance(1, 4) {
+        // a value that itself contains '='
+        cmdline.push("DE=(g1==1)".into());
+        macros.push(MacroDef { name: "DE".into(), params: None, body: "(g1==1)".into(), arity: 0, is_value: true });
+        desc.push("-D NAME=VALUE with '=' inside the value".into());
+    }
+    if rng.chance(1, 4) {
         cmdline.push("DONE".into());
         macros.push(MacroDef { name: "DONE".into(), params: None, body: "1".into(), arity: 0, is_value: true });
         desc.push("-D NAME".into());
@@ -459,6 +465,15 @@ pub fn gen_case(idx: u64, large: bool) -> Case {
                 lines.push(format!("  g3 = {} + {};", u, u2));
             }
             _ => lines.push(format!("  g2 = {} ;", u)),
+        }
+    }
+    // a function-like macro nested in itself three deep, next to a macro defined after it
+    {
+        let two: Vec<&&MacroDef> = live.iter().filter(|m| m.params.is_some() && m.arity == 2 && m.is_value && m.body != "a##b").collect();
+        let later: Vec<&&MacroDef> = live.iter().filter(|m| m.params.is_none() && m.is_value).collect();
+        if let (Some(f), Some(k)) = (two.first(), later.last()) {
+            lines.push(format!("  g2 = {f}({f}({f}(1,2),3),{k});", f = f.name, k = k.name));
+            desc.push("three nested calls of one macro next to a later macro".into());
         }
     }
     // a function whose name ENDS in the name of a function-like macro, called after the macro
